@@ -13,7 +13,7 @@ Vars == {"x", "y"}
 Other(v) == IF v = "x" THEN "y" ELSE "x"
 LastIdx(v) == Bin("-", Call(Id("len"), <<Id(v)>>), Num(1))
 LenOf(v) == Call(Id("len"), <<Id(v)>>)
-Show == SPrint(Arr(<<Id("x"), Id("y")>>))
+Show == SPrint(Arr(<<Id("x"), Id("y"), Prop(Id("o"), "p")>>))
 St(nm, s) == [nm |-> nm, s |-> s]
 Good ==
      { St("new1:" \o v, SExpr(Asg(v, Arr(<<Fresh>>)))) : v \in Vars }
@@ -29,6 +29,9 @@ Good ==
   \cup { St("removeLast:" \o v \o "<-" \o w, SExpr(Asg(v, Call(Id("remove"), <<Id(w), LastIdx(w)>>)))) : v \in Vars, w \in Vars }
   \cup { St("pass:" \o v, SExpr(Call(Id("wr"), <<Id(v)>>))) : v \in Vars }
   \cup { St("read0:" \o v, SPrint(Idx(Id(v), Num(0)))) : v \in Vars }
+  \cup { St("holdlit:" \o v, SExpr(Asg("o", Obj(<<"p", "n">>, <<Id(v), Num(0)>>)))) : v \in Vars }      \* held by a property (object literal)
+  \cup { St("holdset:" \o v, SExpr(PAsg(Id("o"), "p", Id(v)))) : v \in Vars }                          \* held by a property (store)
+  \cup { St("writeprop", SExpr(IAsg(Prop(Id("o"), "p"), Num(0), Fresh))), St("fromprop:x", SExpr(Asg("x", Prop(Id("o"), "p")))) }
 BadIdx == { <<"len", LenOf("x")>>, <<"neg", Un("-", Num(1))>>, <<"frac", Lit(D("0.5"))>>, <<"str", Lit(S("k"))>>, <<"nil", Lit(VNil)>>,
             <<"bool", Lit(VBool(TRUE))>>, <<"big", Lit(D("4294967296"))>>, <<"arr", Arr(<<Num(0)>>)>> }
 Bad == { St("badread:" \o b[1], SPrint(Idx(Id("x"), b[2]))) : b \in BadIdx }
@@ -47,7 +50,7 @@ RHist(s, i, n) == IF n = 0 THEN <<>> ELSE <<GoodSeq[1 + RandInt(s, i, Len(GoodSe
 Randoms == { RHist(SeedProp * 4096 + k, 1, RandLen) : k \in 1..NRandom }
 
 Prelude == << SFun("wr", <<"a">>, <<SExpr(IAsg(Id("a"), Num(0), Fresh))>>), SVar("q", Num(7)),
-              SVar("x", Arr(<<Num(1), Num(2), Num(3)>>)), SVar("y", Arr(<<Num(4), Num(5)>>)), Show >>
+              SVar("x", Arr(<<Num(1), Num(2), Num(3)>>)), SVar("y", Arr(<<Num(4), Num(5)>>)), SVar("o", Obj(<<"p">>, <<Arr(<<Num(9)>>)>>)), Show >>
 RECURSIVE Body(_)
 Body(h) == IF h = <<>> THEN <<>> ELSE <<h[1].s, Show>> \o Body(Tail(h))
 RECURSIVE HName(_)
